@@ -117,8 +117,10 @@ CLAIMED = {
              "n >= 2^128 is E140 (`decimal_too_big`), unary minus folds into decimal literals 1..2^127-1 (`minus_fold`), the "
              "range lint fires iff the value is outside the type's range (`lint_iff_out_of_range`), in-range literals are "
              "materialised exactly for all 11 integer types (`materialise_exact`). The stage-by-stage model is compared with the "
-             "real compiler end to end (printed run-time values through lli, E140/E141/E16x codes, L1142). Partial: escape "
-             "decoding of string/char literals is model + correspondence only.",
+             "real compiler end to end (printed run-time values through lli, E140/E141/E16x codes, L1142). Escape decoding of "
+             "string/char literals: `Lex.string_literal_exact` / `char_literal_exact` (Props/C14) - every item between the quotes "
+             "(`QItem`: what a printable character, a simple escape, `\\xHH`, `\\u{..}`, a raw non-ASCII character means) yields "
+             "exactly its bytes, for any sequence of items.",
         note="Trusted: Lean kernel, transcription of lexer/parser/linter/generator literal arms (checked by end-to-end correspondence), "
              "`print!` and lli as the observation channel (print! stops at NUL: string content is compared up to the first NUL, "
              "length exactly). Minus is only generated in front of decimal spellings (in front of 0x/0b it is an operator on an "
@@ -190,7 +192,10 @@ CLAIMED = {
              "string/char literals), with any indentation, any blanks between them - or none where the next character cannot "
              "extend the token (`Item.after`) - and an optional `//` comment, lexes to exactly those tokens, on the right lines, "
              "each spanning exactly its characters (`lex_line_of_tokens`, `lexLineAux_sequence` by induction over the line). "
-             "Partial: escapes inside string/char literals and non-ASCII text are covered by correspondence only.",
+             "String/char literals with escapes (`string_literal_exact`, `char_literal_exact`): any run of printable characters, simple "
+             "escapes, `\\xHH`, `\\u{..}` and raw non-ASCII characters is the token holding exactly the bytes those items stand for. "
+             "Partial: the error side (which code an ILLEGAL lexeme gets) is covered for number overflow by theorem and otherwise by "
+             "correspondence only.",
         note="Trusted: Lean kernel (propext, Quot.sound, Classical.choice at most), transcription of alpha/lexer.rs (checked exactly, "
              "incl. spans, by correspondence), harness token dump of both real lexers. Delta is compared on kinds/payloads/suffix "
              "types/exact spans of proper tokens and on code+line of error tokens; seven divergence classes are known findings "
